@@ -327,7 +327,15 @@ func checkC11(c *Ctx) {
 		c.Exhaustive = true
 		c.Extra["exhaustive_part"] = "MCC x MNC (1000 x 1100); MSIN digits are sampled"
 	} else {
-		for i := 0; i < 6000; i++ {
+		// the corners of the MCC x MNC domain first (the thorough tier enumerates all of it)
+		i := 0
+		for _, mcc := range []string{"000", "001", "009", "090", "100", "900", "999", "099", "990"} {
+			for _, mnc := range []string{"00", "000", "01", "001", "09", "009", "10", "100", "90", "900", "99", "999", "099", "990"} {
+				jobs = append(jobs, mk(mcc, mnc, root, i))
+				i++
+			}
+		}
+		for ; i < 6000; i++ {
 			jobs = append(jobs, mk(root.Digits(3), root.Digits(2+root.Intn(2)), root, i))
 		}
 	}
